@@ -57,7 +57,7 @@ class Model:
     def __init__(self):
         S.set_counters({k: 80 for k in S.COUNTER_FAMILIES})
         self.m = S.new_mesh()
-        self.V = FunctionSpace(self.m, S.L(ufl.triangle, 1))
+        self.V = FunctionSpace(self.m, S.L(ufl.triangle, 1), label="boundary")      # one labelled and one unlabelled space (the label is part of a space's identity)
         self.W = FunctionSpace(self.m, S.L(ufl.triangle, 2))
         self.dims = {1: 2, 2: 3}
         self.w = World(symbolic=True, complex_mode=False, valuation=None)
